@@ -155,6 +155,7 @@ class Interp:
     def __init__(s, fns, consts, maxdepth=10):
         s.fns, s.consts, s.maxdepth = fns, consts, maxdepth
         s.results = []
+        s.visited = set()   # every function whose MIR was symbolically executed
     def const_value(s, name):
         body = s.consts.get(name)
         if body is None: raise Unsupported(f'const {name} not found in the MIR dump')
@@ -365,6 +366,7 @@ class Interp:
 
     def call_fn(s, st, fn, args, depth, cont):
         if depth > s.maxdepth: raise Unsupported('inline depth')
+        s.visited.add(fn.name)
         st.nframe += 1; fr = st.nframe
         for (n, _), a in zip(fn.params, args): st.mem[('L', fr, n)] = a
         for n in fn.locals:
@@ -495,6 +497,7 @@ def extract(mir_text, maxdepth=10):
                 m = re.search(r'Atomic::<usize>::(\w+)|= (?:\w+::)*(fence|compiler_fence)\(', ln)
                 if m:
                     sites.append((fn.name, m.group(1) or m.group(2)))
+    extract.visited = set(I.visited)
     return out, sites
 
 def describe(paths):
